@@ -45,6 +45,15 @@ CASES = {
     "branch-on-arg": (
         {MAIN: f"PUSH1 0x2a PUSH1 0x04 CALLDATALOAD EQ PUSH @t JUMPI PUSH1 0x01 PUSH0 MSTORE {RET} t: PUSH1 0x02 PUSH0 MSTORE PUSH1 0x20 PUSH0 REVERT"},
         1, False, {}, ["C01", "C02"]),
+    # instructions of the EVM outside the model: the path must be reported stuck, at top level and behind a branch
+    "unmodelled-blobhash-in-branch": (
+        {MAIN: f"PUSH1 0x01 PUSH1 0x04 CALLDATALOAD AND PUSH @t JUMPI PUSH1 0x01 PUSH0 MSTORE {RET} t: PUSH0 RAW 0x49 PUSH0 MSTORE {RET}"},
+        1, False, {}, ["C01", "C02", "C10"]),
+    "unmodelled-blobbasefee-straight": (
+        {MAIN: f"RAW 0x4a PUSH0 MSTORE {RET}"}, 1, False, {}, ["C01", "C02", "C10"]),
+    "undefined-byte-in-branch": (
+        {MAIN: f"PUSH1 0x01 PUSH1 0x04 CALLDATALOAD AND PUSH @t JUMPI PUSH1 0x01 PUSH0 MSTORE {RET} t: RAW 0x0c"},
+        1, False, {}, ["C01", "C02", "C10"]),
     "call-revert-rolls-back": (
         {MAIN: f"PUSH1 0x05 PUSH1 0x01 SSTORE PUSH1 0x20 PUSH1 0x40 PUSH0 PUSH0 PUSH1 0x03 PUSH2 0x2000 PUSH2 0xffff CALL PUSH0 MSTORE PUSH1 0x40 MLOAD PUSH1 0x20 MSTORE PUSH2 0x2000 BALANCE PUSH1 0x60 MSTORE PUSH1 0x01 SLOAD PUSH1 0x80 MSTORE {RET}",
          0x2000: "PUSH1 0x09 PUSH1 0x01 SSTORE CALLVALUE PUSH0 MSTORE PUSH1 0x20 PUSH0 REVERT"}, 1, False, {}, ["C09", "C01"]),
